@@ -53,8 +53,9 @@ const (
 
 // listItem represents an item in a list.
 type listItem struct {
-	Text  string
-	Level int
+	Text    string
+	Level   int
+	Ordered bool // kind of the list (ol / ul) the item sits in; a nested list can differ from its parent
 }
 
 // ParsedTable represents a table extracted from HTML.
